@@ -28,15 +28,15 @@ type Frame struct {
 }
 
 type Client struct {
-	Server  *lsp.Server
-	in      *io.PipeWriter
-	mu      sync.Mutex
-	Frames  []Frame
-	FrameErr error  // framing violation seen on the output stream
-	Died    string // non-empty when Run panicked or returned
-	done    chan struct{}
+	Server     *lsp.Server
+	in         *io.PipeWriter
+	mu         sync.Mutex
+	Frames     []Frame
+	FrameErr   error  // framing violation seen on the output stream
+	Died       string // non-empty when Run panicked or returned
+	done       chan struct{}
 	readerDone chan struct{}
-	notify  chan struct{}
+	notify     chan struct{}
 }
 
 // Start launches a server.
